@@ -57,13 +57,14 @@ def body(ctx):
         ctx.report('write-interest-lost', f"poll loop: {str(iv[0])[:300]}", {'solver_counterexamples': [str(v)[:300] for v in iv[:4]]}, c01.NATIVE_D, inject_into='src/io_loop/mod.rs', profiles=('dev',), hang_is_violation=True, panic_is_violation=True)
     roles = {}
     for v in viol:
-        roles.setdefault(v[0], v)
+        if v[0] not in roles or (native_replay(roles[v[0]]) is None and native_replay(v) is not None):
+            roles[v[0]] = v      # of several counterexamples of one kind, one that can be scripted natively
     for what, v in roles.items():
         test = native_replay(v)
         if test is None:
             ctx.inconclusive.append(f"C20 counterexample without native replay: {str(v)[:300]}")
         else:
-            ctx.report(f"batch-{what}", f"event batch {v[1]} (requests queued: {v[2]}): {v[3]}", {'batch': list(v[1]), 'queued': v[2], 'outcome': v[3]}, test, inject_into='src/io_loop/mod.rs', profiles=('dev',))
+            ctx.report(f"batch-{what}", f"event batch {v[1]} (requests queued: {v[2]}): {v[3]}", {'batch': list(v[1]), 'queued': v[2], 'outcome': v[3]}, test, inject_into='src/io_loop/mod.rs', profiles=('dev',), panic_is_violation=True)
 
 
 def mk_ioloop(prog, w):
@@ -167,7 +168,7 @@ def run_batch(ctx, prog, combo, queued, viol):
                        group='the batch resolves as the serial order of its events: requests before the close take effect (frames queued in that order, allocation answered), nothing is written after a connection close, final state is the close',
                        sample={'batch': list(combo), 'queued': queued, 'written': got, 'state': stn})
         if m is not None:
-            viol.append(('serial-order', combo, queued, f"written {got} expected {exp}, state {stn}"))
+            viol.append(('serial-order', combo, queued, f"written {got} expected {exp}, state {stn}", exp))
     return total
 
 
@@ -216,6 +217,74 @@ fn verif_replay_c20() {
     }
 }
 '''
+
+
+SERIAL_TEST = r"""
+use super::*;
+use super::connection_state::ConnectionState;
+use amq_protocol::frame::AMQPFrame;
+use amq_protocol::protocol::{AMQPClass, connection, channel, basic};
+struct VS4;
+impl std::io::Read for VS4 { fn read(&mut self, _: &mut [u8]) -> std::io::Result<usize> { Err(std::io::Error::new(std::io::ErrorKind::WouldBlock, "wb")) } }
+impl std::io::Write for VS4 { fn write(&mut self, b: &[u8]) -> std::io::Result<usize> { Ok(b.len()) } fn flush(&mut self) -> std::io::Result<()> { Ok(()) } }
+impl mio::Evented for VS4 {
+    fn register(&self, _: &mio::Poll, _: mio::Token, _: mio::Ready, _: mio::PollOpt) -> std::io::Result<()> { Ok(()) }
+    fn reregister(&self, _: &mio::Poll, _: mio::Token, _: mio::Ready, _: mio::PollOpt) -> std::io::Result<()> { Ok(()) }
+    fn deregister(&self, _: &mio::Poll) -> std::io::Result<()> { Ok(()) }
+}
+impl crate::IoStream for VS4 {}
+#[test]
+fn verif_replay_c20_serial() {
+    // channels A = 1 and B = 2 each have one request queued (acks with delivery tags 11 / 22); the batch is handled in the given order
+    let events: Vec<&str> = vec![EVENTS];
+    let want: Vec<&str> = vec![WANT];
+    let r = std::panic::catch_unwind(std::panic::AssertUnwindSafe(|| {
+        let mut io = IoLoop::new(crate::ConnectionTuning::default()).unwrap();
+        io.inner.outbuf.clear();
+        io.inner.chan_slots.set_channel_max(100);
+        let (ch0_slot, ch0_handle) = Channel0Slot::new(16);
+        let (slot_a, mut handle_a) = ChannelSlot::new(16, 1);
+        let (slot_b, mut handle_b) = ChannelSlot::new(16, 2);
+        io.inner.chan_slots.insert(Some(1), |_| Ok((slot_a, ()))).unwrap();
+        io.inner.chan_slots.insert(Some(2), |_| Ok((slot_b, ()))).unwrap();
+        handle_a.call_nowait(basic::AMQPMethod::Ack(basic::Ack { delivery_tag: 11, multiple: false })).unwrap();
+        handle_b.call_nowait(basic::AMQPMethod::Ack(basic::Ack { delivery_tag: 22, multiple: false })).unwrap();
+        let mut state = ConnectionState::Steady(ch0_slot);
+        let mut results: Vec<String> = Vec::new();
+        for kind in events.iter() {
+            let r = match *kind {
+                "stream-conn-close" => state.process(&mut io.inner, AMQPFrame::Method(0, AMQPClass::Connection(connection::AMQPMethod::Close(connection::Close { reply_code: 320, reply_text: "bye".into(), class_id: 0, method_id: 0 })))),
+                "stream-chan-close" => state.process(&mut io.inner, AMQPFrame::Method(1, AMQPClass::Channel(channel::AMQPMethod::Close(channel::Close { reply_code: 404, reply_text: "gone".into(), class_id: 0, method_id: 0 })))),
+                "chanA" => io.handle_steady_event(&mut VS4, &mut state, mio::Event::new(mio::Ready::readable(), mio::Token(1))),
+                _ => io.handle_steady_event(&mut VS4, &mut state, mio::Event::new(mio::Ready::readable(), mio::Token(2))),
+            };
+            results.push(format!("{}:{}", kind, if r.is_ok() { "Ok" } else { "Err" }));
+        }
+        // what was written, in order
+        let mut written: Vec<String> = Vec::new();
+        let mut bytes: &[u8] = &io.inner.outbuf[0..];
+        while !bytes.is_empty() {
+            match amq_protocol::frame::parsing::parse_frame(bytes) {
+                Ok((rest, AMQPFrame::Method(n, AMQPClass::Basic(basic::AMQPMethod::Ack(a))))) => { written.push(if a.delivery_tag == 11 && n == 1 { "reqA".into() } else if a.delivery_tag == 22 && n == 2 { "reqB".into() } else { format!("ack?{}@{}", a.delivery_tag, n) }); bytes = rest; }
+                Ok((rest, AMQPFrame::Method(_, AMQPClass::Channel(channel::AMQPMethod::CloseOk(_))))) => { written.push("M:Channel.CloseOk".into()); bytes = rest; }
+                Ok((rest, AMQPFrame::Method(_, AMQPClass::Connection(connection::AMQPMethod::CloseOk(_))))) => { written.push("M:Connection.CloseOk".into()); bytes = rest; }
+                Ok((rest, other)) => { written.push(format!("{:?}", other).chars().take(20).collect()); bytes = rest; }
+                Err(_) => { written.push("UNPARSABLE".into()); break; }
+            }
+        }
+        std::mem::forget(handle_a); std::mem::forget(handle_b); std::mem::forget(ch0_handle);
+        (results, written)
+    }));
+    match r {
+        Ok((res, written)) => {
+            let w: Vec<&str> = written.iter().map(|s| s.as_str()).collect();
+            if w != want || !res.iter().all(|x| x.ends_with(":Ok")) { println!("VERIF-REPLAY-VIOLATION batch-serial-order results={} written={} expected={}", format!("{:?}", res).replace(' ', ""), format!("{:?}", w).replace(' ', ""), format!("{:?}", want).replace(' ', "")); }
+            else { println!("VERIF-REPLAY-OK {:?}", w); }
+        }
+        Err(p) => { let m = p.downcast_ref::<&str>().map(|s| s.to_string()).or_else(|| p.downcast_ref::<String>().cloned()).unwrap_or_default(); println!("VERIF-REPLAY-VIOLATION batch-panic {}", m.replace(' ', "_")); }
+    }
+}
+"""
 
 
 def token_range(ctx, prog):
@@ -285,7 +354,13 @@ fn verif_replay_token_range() {
 
 
 def native_replay(v):
-    what, combo, queued, out = v
+    what, combo, queued, out = v[:4]
+    if what == 'serial-order':
+        if not queued or any(k not in ('chanA', 'chanB', 'stream-chan-close', 'stream-conn-close') for k in combo):
+            return None
+        evs = ', '.join(f'"{k}"' for k in combo)
+        want = ', '.join(f'"{x}"' for x in v[4])
+        return SERIAL_TEST.replace('EVENTS', evs).replace('WANT', want)
     if what not in ('panic', 'error'):
         return None
     toks = {'tok0': 0, 'alloc': 0xffff + 3, 'blocked': 0xffff + 4, 'chanA': 1, 'chanB': 2, 'stream-conn-close': 0, 'stream-chan-close': 0}
